@@ -51,6 +51,7 @@ type stReq struct {
 	method, path, rawPath, query string
 	header                       map[string][]string
 	body                         *string
+	contentLength                *int64 // overrides the length derived from body (-1: unknown / chunked)
 	script                       map[string]any
 	// expectation
 	stage string // route404 route405 security params body415 body400 handler
@@ -113,7 +114,7 @@ func c15(r *lp.Run) {
 	add(func(q *stReq) { q.hout = "notimpl" })
 	// routing
 	add(func(q *stReq) { q.path = "/items/"; q.stage = "route404-or-params" }) // an empty path argument is accepted or not depending on tree shape (K7); it is never delivered
-	for _, p := range []string{"/", "/items", "/items/42/x", "/nope", "/items/42/", "//items/42", "/ITEMS/42"} {
+	for _, p := range []string{"/", "/items", "/items/42/x", "/nope", "/items/42/", "//items/42", "/ITEMS/42", "/items//42", "/items//", "/items/4/2", "/items///42"} {
 		p := p
 		add(func(q *stReq) { q.path = p; q.stage = "route404" })
 	}
@@ -208,6 +209,9 @@ func c15Do(drv *gc.Driver, pkg string, q stReq, respond any) map[string]any {
 	req := map[string]any{"pkg": pkg, "cmd": "raw", "method": q.method, "path": q.path, "raw_path": q.rawPath, "query": q.query, "header": q.header, "script": script}
 	if q.body != nil {
 		req["body"] = *q.body
+	}
+	if q.contentLength != nil {
+		req["content_length"] = *q.contentLength
 	}
 	ans, _ := drv.Do(req)
 	return ans
